@@ -191,13 +191,21 @@ pub fn parse_rules(line: &str) -> Option<Vec<(String, Vec<&str>)>> {
 }
 
 /// The rule lines in effect at `rel` (module-relative), INIT first, deltas in address order.
-/// `Err(())` when the delta order is not defined (two applicable deltas share an address).
+/// `Err(())` when the delta order is not defined (two applicable deltas share an address and a register).
 pub fn lines_in_effect(rec: &CfiRecord, rel: u64) -> Result<Vec<&str>, ()> {
     let mut ds: Vec<(u64, &str)> = rec.deltas.iter().filter(|d| d.0 <= rel).map(|d| (d.0, d.1.as_str())).collect();
     ds.sort_by_key(|d| d.0); // stable; ties are rejected below
-    for w in ds.windows(2) {
-        if w[0].0 == w[1].0 {
-            return Err(());
+    // Which of two same-address lines wins for one register is not documented; when they assign disjoint
+    // registers the order cannot matter and both are in effect.
+    let labels = |r: &str| -> Vec<String> { r.split_whitespace().filter(|t| t.ends_with(':')).map(|t| t.trim_start_matches('$').to_string()).collect() };
+    for i in 0..ds.len() {
+        for j in 0..i {
+            if ds[i].0 == ds[j].0 {
+                let (a, b) = (labels(ds[i].1), labels(ds[j].1));
+                if a.is_empty() || b.is_empty() || a.iter().any(|x| b.contains(x)) {
+                    return Err(());
+                }
+            }
         }
     }
     let mut v = vec![rec.init_rules.as_str()];
